@@ -126,11 +126,19 @@ pub fn insert_markers(m: &mut walrus::Module, seed: u64) -> u64 {
             if !rng.chance(1, 2) {
                 continue;
             }
-            let mut b = f.builder_mut().instr_seq(sid);
-            let len = b.instrs().len();
-            let pos = rng.usize(len + 1);
-            b.const_at(pos, ir::Value::I64(MARKER));
-            b.drop_at(pos + 1);
+            // two public ways to reach a sequence: the builder, or the sequence itself
+            if rng.bool() {
+                let mut b = f.builder_mut().instr_seq(sid);
+                let len = b.instrs().len();
+                let pos = rng.usize(len + 1);
+                b.const_at(pos, ir::Value::I64(MARKER));
+                b.drop_at(pos + 1);
+            } else {
+                let seq = f.block_mut(sid);
+                let pos = rng.usize(seq.instrs.len() + 1);
+                seq.instrs.insert(pos, (ir::Const { value: ir::Value::I64(MARKER) }.into(), Default::default()));
+                seq.instrs.insert(pos + 1, (ir::Drop {}.into(), Default::default()));
+            }
             n += 1;
         }
     }
@@ -202,6 +210,23 @@ pub fn run(input: &[u8], scn: &str, rec: &mut Rec) {
         }
         if o.has("emit2") {
             emit_into(rec, "emit2", &mut p.module);
+        }
+        if o.has("reedit") {
+            // the same logical module reached two ways: (emit, edit, emit) on this Module vs (fresh parse, same edit, emit)
+            let seed = wv_gen::rng::fnv64(input) ^ 0x5EED;
+            match guarded(|| insert_markers(&mut p.module, seed)) {
+                Ok(n) => rec.push_n("reedit.inserted", n),
+                Err(pan) => rec.push_s("panic.reedit.insert", &pan),
+            }
+            emit_into(rec, "reedit", &mut p.module);
+            match parse_with(input, o.cfg, false, false) {
+                Err(pan) => rec.push_s("panic.reedit.parse", &pan),
+                Ok(Err(e)) => rec.push_s("err.reedit.parse", &e),
+                Ok(Ok(mut p3)) => {
+                    let _ = guarded(|| insert_markers(&mut p3.module, seed));
+                    emit_into(rec, "reedit_fresh", &mut p3.module);
+                }
+            }
         }
         if o.has("fix") {
             if let Some(first) = first {
